@@ -339,3 +339,71 @@ Proof.
   destruct (delitem_kind_nil (dihedrals a)) as [X5 X6]. destruct (delitem_kind_nil (impropers a)) as [X7 X8].
   rewrite X1, X2, X3, X4, X5, X6, X7, X8. repeat split; congruence.
 Qed.
+
+(* ---------- C08: self-replacement leaves every atom's element unchanged, given that matched atoms have the pattern's elements ---------- *)
+Lemma fold_set_cases {A} (g : nat -> A) m i d : forall l,
+  nth i (fold_set g m l) d = nth i l d \/ exists kv, In kv m /\ snd kv = i /\ nth i (fold_set g m l) d = g (fst kv).
+Proof.
+  induction m as [|kv m IH]; intros l; [left; reflexivity|]. cbn [fold_set fold_left].
+  fold (fold_set g m (set_nth (snd kv) (g (fst kv)) l)).
+  destruct (IH (set_nth (snd kv) (g (fst kv)) l)) as [E|[kv' [Hin [Hs E]]]].
+  - rewrite E. destruct (Nat.eq_dec (snd kv) i) as [Ei|Ni].
+    + destruct (Nat.lt_ge_cases i (length l)) as [Hl|Hl].
+      * right. exists kv. split; [left; reflexivity|]. split; [exact Ei|]. rewrite Ei. apply nth_set_nth_same. exact Hl.
+      * left. rewrite !nth_overflow; [reflexivity|exact Hl|rewrite set_nth_length; exact Hl].
+    + left. apply nth_set_nth_other. exact Ni.
+  - right. exists kv'. split; [right; exact Hin|]. split; [exact Hs|exact E].
+Qed.
+
+Definition el_inv (T : list Z) (n : nat) (eS : nat -> Z) (acc : atoms) : Prop :=
+  t_el acc = T /\ n <= length (a_typ acc) /\ forall i, i < n -> nth (nth i (a_typ acc) 0) T DOT = eS i.
+
+Lemma rstep_elements ig P offs tS n eS : pattern_distinct P -> o_atom offs = length tS ->
+  forall sel acc del a del',
+  (forall m j, In m sel -> j < natoms P -> eS (nth j (m_idx m) 0) = element_of P j) ->
+  el_inv (tS ++ t_el P) n eS acc -> rstep false ig P P offs sel acc del = Some (a, del') -> el_inv (tS ++ t_el P) n eS a.
+Proof.
+  intros HP Ho. induction sel as [|m rest IH]; intros acc del a del' Hel Inv H; cbn [rstep] in H.
+  - injection H as <- _. exact Inv.
+  - destruct (disjointb del (dels false P P m) || ig); [|discriminate].
+    refine (IH _ _ _ _ (fun m' j Hm Hj => Hel m' j (or_intror Hm) Hj) _ H). clear IH H.
+    destruct Inv as [I1 [I2 I3]]. unfold extend.
+    destruct (extend_with_atoms acc (with_pos P (m_placed m)) offs (index_map false P P m)) as [_ [_ [_ [Ty [_ [Te _]]]]]].
+    cbv zeta in Ty, Te. cbn [with_pos a_typ] in Ty. unfold el_inv. rewrite Ty, Te. split; [exact I1|].
+    pose proof (fold_set_length (fun k => nth k (a_typ P) 0 + o_atom offs) (index_map false P P m) (a_typ acc)) as FL.
+    split; [rewrite app_length; etransitivity; [exact I2|]; rewrite <- FL; apply Nat.le_add_r|]. intros i Hi.
+    assert (Hi' : i < length (fold_set (fun k => nth k (a_typ P) 0 + o_atom offs) (index_map false P P m) (a_typ acc))) by (rewrite FL; lia).
+    rewrite (app_nth1 _ _ 0 Hi').
+    destruct (fold_set_cases (fun k => nth k (a_typ P) 0 + o_atom offs) (index_map false P P m) i 0 (a_typ acc)) as [E|[kv [Hin [Hs E]]]].
+    + rewrite E. apply I3. exact Hi.
+    + rewrite E. rewrite (self_index_map P m HP) in Hin. apply in_map_iff in Hin. destruct Hin as [j [<- Hj]]. apply in_seq in Hj.
+      cbn [fst snd] in *. rewrite Ho. rewrite app_nth2 by lia. rewrite Nat.add_sub. rewrite <- Hs.
+      rewrite (Hel m j (or_introl eq_refl)) by lia. reflexivity.
+Qed.
+
+Theorem self_replace_elements S P ig sel S' k : pattern_distinct P -> natoms P <> 0 ->
+  Forall (fun m => length (m_idx m) = natoms P /\ length (m_placed m) = natoms P) sel ->
+  length (a_typ S) = natoms S -> Forall (fun t => t < length (t_el S)) (a_typ S) ->
+  (forall m j, In m sel -> j < natoms P -> element_of S (nth j (m_idx m) 0) = element_of P j) ->
+  replace_from S P P false ig sel = Ok S' k ->
+  forall i, i < natoms S -> element_of S' i = element_of S i.
+Proof.
+  intros HP Hn Hsel HL HT Hel H i Hi. unfold replace_from in H. destruct (natoms P) as [|n] eqn:En in H; [congruence|].
+  destruct (extend_types S P) as [S1 offs] eqn:ET.
+  destruct (rstep false ig P P offs sel S1 []) as [[a del']|] eqn:ER; [|discriminate]. injection H as <- _.
+  assert (D' : del' = []).
+  { destruct (rstep_some false ig P P offs sel S1 [] a del' ER (NoDup_nil _)) as [_ [Hin' _]].
+    destruct del' as [|x r]; [reflexivity|]. exfalso. destruct (proj1 (Hin' x) (or_introl eq_refl)) as [[]|[m [Hm Hx]]].
+    rewrite Forall_forall in Hsel. destruct (Hsel m Hm) as [L1 _]. rewrite (self_dels_nil P m HP L1) in Hx. destruct Hx. }
+  subst del'. unfold extend_types in ET. injection ET as <- <-.
+  assert (Inv0 : el_inv (t_el S ++ t_el P) (natoms S) (element_of S)
+           (mk_atoms (a_pos S) (a_typ S) (a_chg S) (a_grp S) (a_xf S) (a_xl S) (t_el S ++ t_el P) (t_mass S ++ t_mass P) (t_lab S ++ t_lab P)
+              (t_pair S ++ t_pair P) (with_coef (bonds S) (k_coef (bonds S) ++ k_coef (bonds P)))
+              (with_coef (angles S) (k_coef (angles S) ++ k_coef (angles P))) (with_coef (dihedrals S) (k_coef (dihedrals S) ++ k_coef (dihedrals P)))
+              (with_coef (impropers S) (k_coef (impropers S) ++ k_coef (impropers P))) (a_cell S))).
+  { unfold el_inv. cbn [t_el a_typ]. split; [reflexivity|]. split; [lia|]. intros i' Hi'. unfold element_of.
+    apply app_nth1. rewrite Forall_forall in HT. apply HT. apply nth_In. lia. }
+  pose proof (rstep_elements ig P (mk_offs (num_atom_types S) (num_types (bonds S)) (num_types (angles S)) (num_types (dihedrals S)) (num_types (impropers S)))
+                (t_el S) (natoms S) (element_of S) HP (eq_refl : _ = length (t_el S)) sel _ [] a [] Hel Inv0 ER) as [J1 [J2 J3]].
+  unfold element_of at 1. cbn [delitem a_typ t_el]. rewrite np_delete_nil, J1. apply J3. exact Hi.
+Qed.
